@@ -6,6 +6,47 @@ From Coq Require Import ZArith Bool Lia Znumtheory.
 Require Import Yui.Model.Ints Yui.Model.Fp Yui.Proofs.C14Ints.
 Open Scope Z_scope.
 
+(* ---------- nonlinear facts, proved in a minimal context (nia diverges in the context of the loop proof) ---------- *)
+Lemma nl_prod_small r0 r1 : 0 <= r0 < r1 -> r0 * r1 < 1 -> r0 = 0.
+Proof. intros H1 H2. nia. Qed.
+Lemma nl_quot_bounds r0 r1 q m : 0 < r0 < r1 -> r1 = r0 * q + m -> 0 <= m < r0 ->
+  1 <= q /\ q <= r1 /\ q * r0 <= r1.
+Proof. intros H1 H2 H3. repeat split; nia. Qed.
+Lemma nl_coef r0 r1 q p A B : 1 <= r0 -> r0 < r1 -> 1 <= q -> q * r0 <= r1 -> 0 <= A -> 0 <= B ->
+  A * r1 + B * r0 = p -> A <= p /\ B <= p /\ 0 <= q * A <= p.
+Proof.
+  intros H1 H2 H3 H4 H5 H6 H7.
+  assert (E1 : 0 <= B * r0) by nia.
+  assert (E2 : A <= A * r1) by nia.
+  assert (E3 : B <= B * r0) by nia.
+  assert (E4 : 0 <= A * r1) by nia.
+  assert (E5 : q * A <= q * A * r0) by nia.
+  assert (E6 : q * A * r0 <= A * r1) by nia.
+  repeat split; nia.
+Qed.
+Lemma nl_measure r0 r1 q X : 0 < r0 < r1 -> 1 <= q -> 0 <= r1 - q * r0 < r0 -> r0 * r1 < 2 * X ->
+  (r1 - q * r0) * r0 < X.
+Proof.
+  intros H1 H2 H3 H4. set (m := r1 - q * r0) in *.
+  assert (E1 : r0 <= q * r0) by nia.
+  assert (E2 : 2 * m + 1 <= r1) by lia.
+  assert (E3 : (2 * m + 1) * r0 <= r1 * r0) by nia.
+  nia.
+Qed.
+Lemma nl_mul_lt a p x y : 0 <= a <= x -> 0 <= p <= y -> 0 < x -> 0 < y -> a * p < 2 * (x * y).
+Proof. intros H1 H2 H3 H4. assert (a * p <= x * y) by nia. nia. Qed.
+
+Lemma egcd_loop_S w f r s t :
+  egcd_loop w (S f) r s t =
+    if fst r =? 0 then
+      if 0 <=? snd r then Some (snd r, snd s, snd t)
+      else do g <- isub w 0 (snd r); do x <- isub w 0 (snd s); do y <- isub w 0 (snd t); Some (g, x, y)
+    else
+      do q <- iquot w (snd r) (fst r);
+      do r' <- egcd_f w q r; do s' <- egcd_f w q s; do t' <- egcd_f w q t;
+      egcd_loop w f r' s' t'.
+Proof. reflexivity. Qed.
+
 Section Egcd.
   Variable w : width.
   Variables a p : Z.
@@ -26,12 +67,13 @@ Section Egcd.
   Proof.
     induction n as [|n IH]; intros r0 r1 s0 s1 t0 t1 sg Hr Hr1 Hm Is0 Is1 Hsg S0 S1 Sd T0 T1 Td.
     - (* r0 * r1 < 1 *)
-      assert (r0 = 0) by (change (2 ^ Z.of_nat 0) with 1 in Hm; nia). subst r0.
-      cbn [egcd_loop fst snd]. change (0 =? 0) with true. cbv iota.
+      change (2 ^ Z.of_nat 0) with 1 in Hm.
+      assert (Hz : r0 = 0) by (apply nl_prod_small with r1; assumption). rewrite Hz in *. clear Hz.
+      rewrite egcd_loop_S. cbn [fst snd]. change (0 =? 0) with true. cbv iota.
       assert (E : (0 <=? r1) = true) by (apply Z.leb_le; lia). rewrite E.
       exists s1, t1. rewrite Z.gcd_0_l, Z.abs_eq by lia. auto.
-    - cbn [egcd_loop fst snd]. destruct (r0 =? 0) eqn:E0.
-      + apply Z.eqb_eq in E0. subst r0.
+    - rewrite egcd_loop_S. cbn [fst snd]. destruct (r0 =? 0) eqn:E0.
+      + apply Z.eqb_eq in E0. rewrite E0 in *.
         assert (E : (0 <=? r1) = true) by (apply Z.leb_le; lia). rewrite E.
         exists s1, t1. rewrite Z.gcd_0_l, Z.abs_eq by lia. auto.
       + apply Z.eqb_neq in E0.
@@ -39,30 +81,30 @@ Section Egcd.
         set (q := r1 / r0) in *.
         assert (Hqr : r1 = r0 * q + r1 mod r0) by (apply Z.div_mod; lia).
         assert (Hmod : 0 <= r1 mod r0 < r0) by (apply Z.mod_pos_bound; lia).
-        assert (Hq1 : 1 <= q) by nia.
-        assert (Hqp : q <= r1) by nia.
+        destruct (nl_quot_bounds r0 r1 q (r1 mod r0)) as (Hq1 & Hqp & Hqr0); [lia|exact Hqr|exact Hmod|].
+        assert (Hrem : r1 - q * r0 = r1 mod r0) by lia.
+        assert (Ha' : 0 <= a) by lia.
+        (* bounds on the cofactors: |s0|, |s1|, q |s0| <= p and the same for t with a <= p *)
+        assert (Bs : 0 <= sg * s0 <= p /\ 0 <= - sg * s1 <= p /\ 0 <= q * (sg * s0) <= p).
+        { destruct (nl_coef r0 r1 q p (sg * s0) (- sg * s1)) as (B1 & B2 & B3); try lia; destruct Hsg; subst sg; lia. }
+        assert (Bt : 0 <= - sg * t0 <= p /\ 0 <= sg * t1 <= p /\ 0 <= q * (- sg * t0) <= p).
+        { destruct (nl_coef r0 r1 q a (- sg * t0) (sg * t1)) as (B1 & B2 & B3); try lia; destruct Hsg; subst sg; lia. }
         unfold iquot. apply Z.eqb_neq in E0 as E0'. rewrite E0'. rewrite Hq.
         rewrite ckf by lia. cbn [obind].
         unfold egcd_f. cbn [fst snd]. unfold imul, isub.
         (* r *)
-        rewrite (ckf (q * r0)) by nia. cbn [obind].
-        rewrite (ckf (r1 - q * r0)) by nia. cbn [obind].
-        (* s *)
-        assert (Hr0 : 1 <= r0) by lia.
-        assert (Hqr0 : q * r0 <= r1) by nia.
-        assert (Bs : 0 <= sg * s0 <= p /\ 0 <= - sg * s1 <= p /\ 0 <= q * (sg * s0) <= p).
-        { destruct Hsg; subst sg; nia. }
-        assert (Bt : 0 <= - sg * t0 <= p /\ 0 <= sg * t1 <= p /\ 0 <= q * (- sg * t0) <= p).
-        { destruct Hsg; subst sg; nia. }
+        rewrite (ckf (q * r0)) by lia. cbn [obind].
+        rewrite (ckf (r1 - q * r0)) by lia. cbn [obind].
+        (* s, t *)
         rewrite (ckf (q * s0)) by (destruct Hsg; subst sg; lia). cbn [obind].
         rewrite (ckf (s1 - q * s0)) by (destruct Hsg; subst sg; lia). cbn [obind].
         rewrite (ckf (q * t0)) by (destruct Hsg; subst sg; lia). cbn [obind].
         rewrite (ckf (t1 - q * t0)) by (destruct Hsg; subst sg; lia). cbn [obind].
-        assert (Hrem : r1 - q * r0 = r1 mod r0) by lia.
         destruct (IH (r1 - q * r0) r0 (s1 - q * s0) s0 (t1 - q * t0) t0 (- sg)) as (x & y & Hl & Hb).
         * lia.
         * lia.
-        * rewrite Nat2Z.inj_succ, Z.pow_succ_r in Hm by lia. nia.
+        * rewrite Nat2Z.inj_succ, Z.pow_succ_r in Hm by lia.
+          apply nl_measure; try lia.
         * rewrite <- Is0, <- Is1. ring.
         * exact Is0.
         * lia.
@@ -82,7 +124,7 @@ Section Egcd.
   Proof.
     intros Hap. unfold egcd, egcd_fuel.
     set (n := Z.to_nat (Z.log2_up (Z.abs a) + Z.log2_up (Z.abs p))).
-    cbn [egcd_loop fst snd].
+    rewrite egcd_loop_S. cbn [fst snd].
     assert (E0 : (p =? 0) = false) by (apply Z.eqb_neq; lia). rewrite E0.
     unfold iquot. rewrite E0. rewrite Z.quot_small by lia. rewrite ckf by lia. cbn [obind].
     unfold egcd_f. cbn [fst snd]. unfold imul, isub. rewrite !Z.mul_0_l.
@@ -97,8 +139,8 @@ Section Egcd.
       rewrite Z.pow_succ_r, Z.pow_add_r by lia.
       assert (0 < 2 ^ Z.log2_up a) by (apply Z.pow_pos_nonneg; lia).
       assert (0 < 2 ^ Z.log2_up p) by (apply Z.pow_pos_nonneg; lia).
-      nia.
-    - exists x, y. rewrite Hl. rewrite Z.gcd_comm. auto.
+      apply nl_mul_lt; lia.
+    - exists x, y. rewrite Hl. auto.
   Qed.
 End Egcd.
 
@@ -253,6 +295,9 @@ Proof.
   apply ole_bind; [apply egcd_loop_mono|intros; apply ole_refl].
 Qed.
 
+Lemma egcd_f_big q r : egcd_f Big q r = Some (snd r - q * fst r, fst r).
+Proof. reflexivity. Qed.
+
 (* Bezout invariant of the loop over Z, for arbitrary arguments and fuel *)
 Lemma egcd_loop_bezout a p fuel : forall r s t g x y,
   snd s * a + snd t * p = snd r -> fst s * a + fst t * p = fst r ->
@@ -265,7 +310,7 @@ Proof.
     + inversion H; subst. apply Z.leb_le in E1. auto.
     + cbn in H. inversion H; subst. apply Z.leb_gt in E1. split; lia.
   - apply Z.eqb_neq in E0. rewrite iquot_big in H by auto. cbn [obind] in H.
-    unfold egcd_f in H. cbn [fst snd] in H. rewrite !imul_big, !isub_big in H. cbn [obind] in H.
+    rewrite !egcd_f_big in H. cbn [obind fst snd] in H.
     apply IH in H; auto; cbn [fst snd].
     rewrite <- I1, <- I0. ring.
 Qed.
